@@ -63,6 +63,12 @@ def cases(seed, tier):
     for d in range(0, depth + 1):
         for combo in itertools.product(small, repeat=d):
             yield list(combo), GETS[:4], False
+    for v in cl_numeral_grid():
+        if all(c in PLAIN for c in v):
+            ops = [(r.choice(["add", "rep"]), r.choice([b"content-length", b"Content-Length"]), v)]
+            if r.random() < 0.3:
+                ops.insert(0, ("add", b"Content-Length", b"7"))
+            yield ops, GETS[:4], False
     big = alphabet(NAMES, VALUES)
     bad = alphabet(NAMES[:6], BAD_VALUES)
     n = 6000 if tier == "quick" else 200000
